@@ -48,6 +48,27 @@ mod wrapper;
 pub use self::sketch::CpcSketch;
 #[cfg(feature = "verif-hooks")]
 pub use self::sketch::VerifCpcState;
+
+/// Estimate and bounds computed by the CPC estimator functions for the given sketch summary, for
+/// the external verification harness (feature `verif-hooks`):
+/// `[estimate, lb1, lb2, lb3, ub1, ub2, ub3]`.
+#[cfg(feature = "verif-hooks")]
+pub fn verif_estimator_bounds(
+    merge_flag: bool,
+    hip_est_accum: f64,
+    lg_k: u8,
+    num_coupons: u32,
+) -> [f64; 7] {
+    use crate::common::NumStdDev;
+    let sd = [NumStdDev::One, NumStdDev::Two, NumStdDev::Three];
+    let mut out = [0.0; 7];
+    out[0] = estimator::estimate(merge_flag, hip_est_accum, lg_k, num_coupons);
+    for (i, s) in sd.iter().enumerate() {
+        out[1 + i] = estimator::lower_bound(merge_flag, hip_est_accum, lg_k, num_coupons, *s);
+        out[4 + i] = estimator::upper_bound(merge_flag, hip_est_accum, lg_k, num_coupons, *s);
+    }
+    out
+}
 pub use self::union::CpcUnion;
 pub use self::wrapper::CpcWrapper;
 
